@@ -227,6 +227,51 @@ func r37GateFirst(c *core.Ctx) {
 			detail = "a return reachable with a non-nil IsQuadTree error does not return that error @" + c.P.Pos(ret.Pos())
 		}
 	}
+	// the gate and the deviation statistics look at the set that was handed in, not at a copy or a part of it
+	{
+		okWhole, why := true, ""
+		if len(v.SSA.Params) < 1 {
+			okWhole, why = false, "validateTileMatrixSet has no tile matrix set parameter"
+		} else {
+			prm := ssa.Value(v.SSA.Params[0])
+			if resolveValue(gate.Call.Args[0]) != prm {
+				okWhole, why = false, "IsQuadTree is called with "+gate.Call.Args[0].String()+", not with the tile matrix set handed to validation"
+			}
+			for _, ds := range findCalls(v.SSA, core.ModPath+"/pointindex.DeviationStats") {
+				if resolveValue(ds.Call.Args[0]) != prm {
+					okWhole, why = false, "DeviationStats is called with something other than the tile matrix set handed to validation"
+				}
+			}
+			// and that parameter is not modified before (a spilled parameter has exactly one store)
+			for _, r := range *v.SSA.Params[0].Referrers() {
+				if st, ok := r.(*ssa.Store); ok {
+					if a, ok := st.Addr.(*ssa.Alloc); ok {
+						n := 0
+						var walk func(x ssa.Value)
+						walk = func(x ssa.Value) {
+							for _, rr := range *x.Referrers() {
+								switch y := rr.(type) {
+								case *ssa.Store:
+									if y.Addr == x {
+										n++
+									}
+								case *ssa.FieldAddr:
+									walk(y)
+								case *ssa.IndexAddr:
+									walk(y)
+								}
+							}
+						}
+						walk(a)
+						if n > 1 {
+							okWhole, why = false, "the tile matrix set parameter is modified inside validation"
+						}
+					}
+				}
+			}
+		}
+		c.Check(R, "gate-checks-the-whole-set/main.validateTileMatrixSet", gates[0].Pos(), okWhole, "IsQuadTree and DeviationStats receive the tile matrix set as handed to validation", "validation does not examine the complete tile matrix set: "+why)
+	}
 	c.Check(R, "gate-error-returned/main.validateTileMatrixSet", gates[0].Pos(), okRet && len(seen) > 0, "IsQuadTree's error is returned to the caller", "IsQuadTree's verdict is dropped: "+detail)
 
 	// every error produced inside validation is returned: no callee's error is downgraded to a log line
